@@ -60,6 +60,26 @@ def eval_pred(ix, mod, expr, binding, depth=0, fn=None):
         for k, v in binding.items():
             if not k.isidentifier() and u(node) == k:
                 return v
+        if isinstance(node, ast.Call) and isinstance(node.func, ast.Attribute) and isinstance(node.func.value, ast.Name) and node.func.value.id == "self" and depth < 3:
+            cands = [k for k, g in ix.funcs.items() if g.cls and g.name == node.func.attr and g.mod == mod]
+            if len(cands) == 1:
+                g = ix.funcs[cands[0]]
+                body = [s for s in g.node.body if not (isinstance(s, ast.Expr) and isinstance(s.value, ast.Constant))]
+                params = [p_ for p_ in g.params if p_ != "self"]
+                binds = {}
+                ok_body = True
+                for s_ in body[:-1]:
+                    if isinstance(s_, ast.Assign) and len(s_.targets) == 1 and isinstance(s_.targets[0], ast.Name):
+                        binds[s_.targets[0].id] = s_.value
+                    else:
+                        ok_body = False
+                if ok_body and body and isinstance(body[-1], ast.Return) and len(node.args) == len(params):
+                    args = [AEval(atom).ev(a) for a in node.args]
+                    b2 = dict(binding)
+                    b2.update(dict(zip(params, args)))
+                    for nm, ex_ in binds.items():
+                        b2[nm] = eval_pred_value(ix, g.mod, ex_, b2, depth + 1)
+                    return eval_pred_value(ix, g.mod, body[-1].value, b2, depth + 1)
         if isinstance(node, ast.Call) and isinstance(node.func, ast.Name) and depth < 3:
             q = ix.resolve_name(mod, node.func.id)
             if q in ix.funcs:
@@ -70,7 +90,18 @@ def eval_pred(ix, mod, expr, binding, depth=0, fn=None):
                     return eval_pred(ix, f.mod, body[0].value, dict(zip(f.params, args)), depth + 1)
         return ga(node)
     ev = AEval(atom)
+    if getattr(eval_pred, "_value_mode", False):
+        return ev.ev(expr)
     return ev.truth(ev.ev(expr))
+
+
+def eval_pred_value(ix, mod, expr, binding, depth=0):
+    old = getattr(eval_pred, "_value_mode", False)
+    eval_pred._value_mode = True
+    try:
+        return eval_pred(ix, mod, expr, binding, depth)
+    finally:
+        eval_pred._value_mode = old
 
 
 def c15_1(rep, ix):
@@ -122,6 +153,34 @@ def c15_1(rep, ix):
                 rep.check(got == want, R, ix.site(sf, test_if), "serialiser: the string %r in a %s program is written %s" % (s, "tdm" if tdm else "non-tdm", "as a bare name" if want else "quoted"),
                           "unquoted-test evaluates to %s" % got, key="ser|%d|%s|%s" % (slots, tdm, s))
     rep.check(slots >= 2, R, ix.site(sf), "both the positional and the keyword string branch carry the p-type test", "found %d" % slots, key="ser slots")
+    # every site that asks "is this a tdm program?" gives the same answer for every spelling of the type name
+    from .c07 import resolve
+    tests = []
+    lf = ix.func(ARRAY)
+    for n in walk_shallow(lf.node):
+        if isinstance(n, ast.If) and "is_ptype(" in u(n.test) and "tdm" in u(n.test):
+            tests.append((lf, n.test, "registration in exitArrayvar", {"is_ptype(name)": True}))
+    for n in fn.body:
+        if isinstance(n, ast.If) and "tdm" in " ".join(u(resolve(fn, n.test)).split()) and "isinstance" not in u(n.test):
+            tests.append((sf, resolve(fn, n.test), "variable section of serialize", {}))
+    for outer, test_if, var in sites:
+        tests.append((sf, test_if.test, "string argument in serialize", {var: "p0"}))
+    table = {}
+    for tn in ("tdm", "TDM", "Tdm", "other"):
+        for g, t, what, extra in tests:
+            b = {"self.programtype['name']": tn, 'self.programtype["name"]': tn, "self._program._type['name']": tn, 'self._program._type["name"]': tn, "self._type['name']": tn, "name": "p0"}
+            b.update(extra)
+            try:
+                def atom_extra(expr_=t, b_=b, g_=g):
+                    return eval_pred(ix, g_.mod, expr_, dict(b_, **{"is_ptype": None}), fn=g_.node)
+                v = bool(atom_extra())
+            except Exception as e_:
+                v = "undecided: %s" % e_
+            table.setdefault(tn, []).append((what, v))
+    for tn, rows in table.items():
+        vals = {v for _, v in rows}
+        rep.check(len(vals) == 1 and not any(isinstance(v, str) for v in vals), R, ix.site(sf), "all %d places that test for a tdm program agree for the type name %r" % (len(rows), tn),
+                  "answers differ: %s" % rows, key="tdm agree|" + tn)
 
 
 def c15_2(rep, ix):
